@@ -125,6 +125,33 @@ int main(int argc, char** argv)
 '''
 
 
+from tools.harness.codec import target_c as _tc
+
+
+class OvrCTarget(_tc.CTarget):
+    """the C01/C02 C runner with --enable-override-variable-array-capacity (capacities NOT reduced: the generated code must then
+    behave exactly like the default rendering, guards and storage-capacity checks included)"""
+
+    def generate(self, ns_dirs, outdir, repo):
+        env = dict(os.environ)
+        env['PYTHONPATH'] = os.path.join(repo, 'src')
+        env.setdefault('PYTHONHASHSEED', '0')
+        env['PYTHONDONTWRITEBYTECODE'] = '1'
+        log = ''
+        for i, d in enumerate(ns_dirs):
+            cmd = [PY, '-m', 'nunavut', '--target-language', 'c', '--outdir', outdir, '--allow-unregulated-fixed-port-id',
+                   '--enable-override-variable-array-capacity', '--target-endianness', self.options.get('target_endianness', 'any')]
+            for j, o in enumerate(ns_dirs):
+                if j != i:
+                    cmd += ['-I', o]
+            cmd.append(d)
+            p = subprocess.run(cmd, env=env, stdout=subprocess.PIPE, stderr=subprocess.STDOUT, text=True, errors='replace', timeout=600)
+            log += p.stdout
+            if p.returncode != 0:
+                return False, 'nnvg failed (%s): %s' % (' '.join(cmd), p.stdout[-3000:])
+        return True, log
+
+
 def _run(cmd, timeout=300, env=None, cwd=None):
     return subprocess.run(cmd, stdout=subprocess.PIPE, stderr=subprocess.PIPE, text=True, errors='replace', timeout=timeout, env=env, cwd=cwd)
 
